@@ -3,9 +3,10 @@
    requirement / type-reference graph — with the outcomes Ok | Err | Crash site | Diverge.  The XML parser (roxmltree), the
    real stack size, FEEL parsing of the texts inside the model and the evaluation of expressions are not in it; they are covered by
    the fault-injection run of props/c12.py.  `rank` = any numbering of the nodes that decreases along every requirement between
-   nodes (it exists iff the graph is acyclic); `fuel` = number of stack frames available. *)
+   nodes (it exists iff the graph is acyclic: C12_ranked_no_cycle / C12_acyclic_has_numbering); `fuel` = number of stack frames available.
+   The cycle search is proved exact for every graph (C12/DfsProofs.v); `deps d` is the graph check_cyclic_dependencies collects. *)
 From Coq Require Import List Arith Bool PeanoNat.
-From DV Require Import C12.Model C12.Proofs.
+From DV Require Import C12.Model C12.Proofs C12.DfsProofs.
 Import ListNotations.
 
 (* ---- decision tables: any numbers of clauses and entries *)
@@ -16,13 +17,18 @@ Proof. exact table_build_ok_iff. Qed.
 Theorem C12_table_eval_total : forall t, table_eval t = Ok.
 Proof. exact table_eval_total. Qed.
 
-(* ---- the whole build / evaluation of an acyclic model: a model or an error, never a crash; depth bound = rank + 1 frames *)
-Theorem C12_total_partial : forall fuel d (rank : nat -> nat),
-  has_cycle (deps d) <> DfsFuel ->
-  (forall n ts m, targets (deps d) n = Some ts -> In m ts -> targets (deps d) m <> None -> rank m < rank n) ->
-  (forall n, rank n < fuel) ->
-  build fuel d = Ok \/ build fuel d = Err.
-Proof. exact build_total. Qed.
+(* ---- the whole build / evaluation: a model or an error, never a crash, for EVERY model (no numbering given: a model that passes the
+        check has one, see C12_passed_check_numbering), with a stack of more frames than the graph has rows; depth bound = rank + 1 frames *)
+Theorem C12_total : forall fuel d, length (deps d) < fuel ->
+  (build fuel d = Ok \/ build fuel d = Err) /\
+  ((exists n, on_cycle (deps d) n) -> build fuel d = Err) /\
+  ((forall n, ~ on_cycle (deps d) n) -> build fuel d = first_not_ok (map table_build (tables d))).
+Proof. exact total. Qed.
+(* a model with a cycle is rejected before any recursion: for every fuel, 0 included *)
+Theorem C12_cyclic_rejected : forall d, (exists n, on_cycle (deps d) n) -> forall fuel, build fuel d = Err.
+Proof. exact cyclic_rejected. Qed.
+Theorem C12_built_model_evaluates : forall fuel d n, length (deps d) < fuel -> build fuel d = Ok -> evaluate fuel d n = Ok.
+Proof. exact built_evaluates. Qed.
 Theorem C12_evaluate_total : forall fuel d (rank : nat -> nat) n,
   (forall n ts m, targets (deps d) n = Some ts -> In m ts -> targets (deps d) m <> None -> rank m < rank n) ->
   rank n < fuel -> evaluate fuel d n = Ok.
@@ -36,16 +42,39 @@ Theorem C12_ranked_no_cycle : forall g (rank : nat -> nat),
 Proof. exact ranked_no_cycle. Qed.
 
 (* ---- cycles: the recursion of the builders / evaluators cannot end on ANY cyclic graph, for any stack size — so the pinned code
-        (no check) aborts on every cyclic model; the check added in front of it is exact on all graphs with up to 3 nodes (finite sweep, 4164 graphs) *)
+        (no check) aborts on every cyclic model; the check added in front of it is exact on all graphs (C12_cycle_check_exact) *)
 Theorem C12_cycle_diverges_without_check : forall g n, on_cycle g n -> forall fuel, follow fuel g n = Diverge.
 Proof. exact cycle_diverges. Qed.
 Theorem C12_build_orig_cycle_diverges : forall fuel d n, on_cycle (deps d) n -> Forall (fun t => table_build_orig t = Ok) (tables d) ->
   build_orig fuel d = Diverge.
 Proof. exact build_orig_cycle_diverges. Qed.
+(* the search is EXACT on every graph (any size, any order of rows, duplicate rows or targets, self references, dangling targets):
+   it ends within its fuel, answers Cycle iff some node is on a cycle, and otherwise returns colours *)
+Theorem C12_cycle_check_exact : forall g,
+  has_cycle g <> DfsFuel /\
+  (has_cycle g = Cycle <-> exists n, on_cycle g n) /\
+  ((exists c, has_cycle g = NoCycle c) <-> forall n, ~ on_cycle g n).
+Proof. exact cycle_check_exact. Qed.
+(* the colours of a passed check give a topological numbering (finishing order), at most the number of rows *)
+Theorem C12_passed_check_numbering : forall g c, has_cycle g = NoCycle c ->
+  (forall n ts m, targets g n = Some ts -> In m ts -> targets g m <> None -> finish_rank c m < finish_rank c n) /\
+  (forall n, finish_rank c n <= length g).
+Proof. exact passed_numbering. Qed.
+Theorem C12_acyclic_has_numbering : forall g, (forall n, ~ on_cycle g n) ->
+  exists rank : nat -> nat, (forall n ts m, targets g n = Some ts -> In m ts -> targets g m <> None -> rank m < rank n) /\ (forall n, rank n <= length g).
+Proof. exact passed_check_topological. Qed.
+(* kept as an independent cross-check against a second notion of cycle (boolean closure), finite sweep over 4164 graphs *)
 Theorem C12_cycle_detected_upto_3 : forall g, In g (graphs_upto 1 ++ graphs_upto 2 ++ graphs_upto 3) ->
   has_cycle g <> DfsFuel /\ (has_cycle g = Cycle <-> cyclic_ref g = true).
 Proof. exact dfs_correct_upto_3. Qed.
 
+Example C12_dfs_nonvacuous :
+  has_cycle g_ring3_tail = Cycle /\ on_cycle g_ring3_tail 0 /\ build 0 (mk_defs [] g_ring3_tail) = Err /\
+  has_cycle g_diamond = NoCycle diamond_colours /\
+  map (finish_rank diamond_colours) [0; 1; 2; 3; 5] = [4; 2; 3; 1; 0] /\
+  build 5 (mk_defs [mk_table 1 1 [mk_rule 1 1]] g_diamond) = Ok /\
+  has_cycle [(4, [4])] = Cycle /\ has_cycle [(0, [1]); (1, []); (0, [0])] = NoCycle [(0, true); (1, true); (1, false); (0, false)].
+Proof. exact examples. Qed.
 Example C12_nonvacuous :
   build 10 (mk_defs [mk_table 2 1 [mk_rule 2 1; mk_rule 2 1]] [(0, [1; 2]); (1, [2]); (2, [7])]) = Ok /\
   evaluate 10 (mk_defs [mk_table 2 1 [mk_rule 2 1]] [(0, [1; 2]); (1, [2]); (2, [7])]) 0 = Ok /\
@@ -67,7 +96,7 @@ Theorem C12_orig_refuted_cycle : on_cycle g_two_cycle 0 /\ (forall fuel, build_o
 Proof. exact orig_refuted_cycle. Qed.
 (* ---- item definitions are trees: the collection of type references reaches a reference at ANY nesting depth (and nothing else), so such a
         reference is an edge of the graph the cycle search runs on; a self reference through a chain of components of any depth is a cycle of it;
-        a flat collection (definition + direct components) is refuted; the search finds the cycle for chains of depth 0..6 (finite sweep) *)
+        a flat collection (definition + direct components) is refuted; the search finds the cycle for chains of EVERY depth (and, as a run, for depth 0..6) *)
 Theorem C12_collect_refs_complete : forall t x, occurs x t <-> In x (collect_refs t).
 Proof. exact collect_refs_complete. Qed.
 Theorem C12_nested_reference_is_edge : forall t rest x, occurs x t ->
@@ -77,6 +106,8 @@ Theorem C12_nested_self_reference_cycle : forall d n cs rest, on_cycle (item_gra
 Proof. exact nested_self_reference_cycle. Qed.
 Theorem C12_flat_refs_refuted : exists t x, occurs x t /\ ~ In x (flat_refs t) /\ In x (collect_refs t).
 Proof. exact flat_refs_refuted. Qed.
+Theorem C12_nested_cycle_found : forall d n cs rest, has_cycle (item_graph (ItemDef n None (nested d n :: cs) :: rest)) = Cycle.
+Proof. exact nested_cycle_found. Qed.
 Theorem C12_nested_cycle_found_upto_6 :
   forallb (fun d => match has_cycle (item_graph [ItemDef 5 None [nested d 5]]) with Cycle => true | _ => false end) (seq 0 7) = true.
 Proof. exact nested_cycle_found_upto_6. Qed.
@@ -84,13 +115,19 @@ Proof. exact nested_cycle_found_upto_6. Qed.
 Print Assumptions C12_table_build_total.
 Print Assumptions C12_table_build_ok_iff.
 Print Assumptions C12_table_eval_total.
-Print Assumptions C12_total_partial.
+Print Assumptions C12_total.
+Print Assumptions C12_cyclic_rejected.
+Print Assumptions C12_built_model_evaluates.
 Print Assumptions C12_evaluate_total.
 Print Assumptions C12_depth_bound.
 Print Assumptions C12_ranked_no_cycle.
 Print Assumptions C12_cycle_diverges_without_check.
 Print Assumptions C12_build_orig_cycle_diverges.
+Print Assumptions C12_cycle_check_exact.
+Print Assumptions C12_passed_check_numbering.
+Print Assumptions C12_acyclic_has_numbering.
 Print Assumptions C12_cycle_detected_upto_3.
+Print Assumptions C12_dfs_nonvacuous.
 Print Assumptions C12_nonvacuous.
 Print Assumptions C12_table_build_orig_crash_iff.
 Print Assumptions C12_orig_refuted_short_rule.
@@ -100,4 +137,5 @@ Print Assumptions C12_collect_refs_complete.
 Print Assumptions C12_nested_reference_is_edge.
 Print Assumptions C12_nested_self_reference_cycle.
 Print Assumptions C12_flat_refs_refuted.
+Print Assumptions C12_nested_cycle_found.
 Print Assumptions C12_nested_cycle_found_upto_6.
